@@ -312,8 +312,6 @@ def rotations(c, rebound, exe):
         if not (lf > 1e-150 and lt_ > 1e-150 and lf < 1e150 and lt_ < 1e150):
             continue
         nq = float(sum(Fr(x) ** 2 for x in qv)) if all(x == x for x in qv) else float("nan")
-        exact_anti = all(Fr(a) * Fr(lt_) == -Fr(b) * Fr(lf) for a, b in zip(f, t)) or \
-            all(Fr(a) * s == -Fr(b) for a, b in zip(f, t) for s in [Fr(t[0]) / Fr(-f[0]) if f[0] else Fr(1)])
         key = "F7:from_to-antiparallel" if cls == "antiparallel-exact" else "from_to:" + cls
         bad = None
         if not abs(nq - 1) <= 1e-13:
